@@ -1,4 +1,107 @@
-(* C01 property theorems: statements only, each closed by `exact`, Print Assumptions beneath. *)
-From Coq Require Import List String Bool.
-Require Import OV.Graph.Syntax OV.Script.Syntax OV.Script.Sets OV.Gen.Analysis OV.Script.AnalysisAux.
+(* C01 property theorems: statements only, each closed by `exact`, Print Assumptions beneath.
+
+   The full statement (C01_full) is compiler correctness of the converter model for every program of
+   Script.Syntax; what is proved is stage S1 (straight-line programs: any expression nesting, literals
+   with their static CastLike, calls of operators and of other script functions, re-assignment, aliasing,
+   several return values with the Identity copies for returned inputs / duplicates).  Stages S2 (if/else),
+   S3 (for/while/break) and S4 (attribute parameters, tuple assignment) are not proved: for those the
+   evidence is the skeleton correspondence and the four-way direct oracle of harness/c01.py only. *)
+From Coq Require Import List String ZArith Bool.
+Require Import OV.Graph.Syntax OV.Graph.Sem OV.Script.Syntax OV.Script.Sets OV.Gen.Analysis OV.Gen.ScriptTables
+               OV.Script.Translate OV.Script.PySem OV.Script.TranslateProofs OV.Script.TablesProofs OV.Script.TranslateExamples
+               OV.Script.AnalysisProofs.
 Import ListNotations.
+Local Open Scope string_scope.
+
+(* _generate_unique_name: the name returned is not in the used set, the used set grows by exactly that name,
+   the counter never decreases, nothing else changes *)
+Theorem C01_gen_unique_fresh : forall cand st r st',
+  gen_unique cand st = Some (r, st') ->
+  ~ In r (ts_used st) /\ ts_used st' = r :: ts_used st /\ ts_next st <= ts_next st'
+  /\ ts_castable st' = ts_castable st /\ ts_orders st' = ts_orders st.
+Proof. exact gen_unique_fresh. Qed.
+Print Assumptions C01_gen_unique_fresh.
+
+(* the full statement: whatever the kernels mean (Identity being the identity), for every listing order of the
+   Python sets (`orders`), a translated program evaluates as a graph to what the source evaluates to as Python *)
+Definition C01_full : Prop :=
+  forall (V : Type) sem truth trip of_nat of_bool limit while_limit globals,
+    (forall v : V, sem "" "Identity" [] [Some v] = Some [v]) ->
+    forall cic afuel orders f g xs vs fuel2,
+      f_aparams f = [] -> NoDup (f_tparams f) ->
+      translate false globals cic afuel orders f = Some g ->
+      eval_script V sem truth trip of_nat while_limit globals (S fuel2) f xs = Some vs ->
+      exists k, eval_graph V sem truth trip of_nat of_bool limit k [] g xs = Some vs.
+
+(* S1: straight-line bodies (assignments of arbitrary S1 expressions, then one return) *)
+Theorem C01_graph_eq_python_straightline_partial :
+  forall (V : Type) sem truth trip of_nat of_bool limit while_limit globals,
+    (forall v : V, sem "" "Identity" [] [Some v] = Some [v]) ->
+    forall cic afuel orders f g xs vs fuel2 k pre es,
+      f_body f = (pre ++ [SReturn es])%list -> assigns_ok pre = true -> forallb expr_ok es = true ->
+      f_aparams f = [] -> NoDup (f_tparams f) ->
+      translate false globals cic afuel orders f = Some g ->
+      eval_script V sem truth trip of_nat while_limit globals (S fuel2) f xs = Some vs ->
+      eval_graph V sem truth trip of_nat of_bool limit (S k) [] g xs = Some vs.
+Proof. exact translate_straightline_correct. Qed.
+Print Assumptions C01_graph_eq_python_straightline_partial.
+
+(* the hypotheses are satisfiable on a non-trivial instance (literal operands with casts, re-assigned parameter,
+   duplicate return): 9 nodes, and the source evaluates to values *)
+Theorem C01_straightline_nonvacuous :
+  exists g pre es,
+    f_body ex_f = (pre ++ [SReturn es])%list /\ assigns_ok pre = true /\ forallb expr_ok es = true /\
+    f_aparams ex_f = [] /\ NoDup (f_tparams ex_f) /\
+    translate false [] (fun _ => None) 5 [] ex_f = Some g /\
+    List.length (g_nodes g) = 9 /\
+    eval_script Z toy_sem (fun z => Some (Z.eqb z 0)) (fun z => Some (Z.to_nat z)) Z.of_nat 10 [] 3 ex_f [5%Z; 3%Z]
+      = Some [(-20)%Z; (-20)%Z; 7%Z].
+Proof. exact ex_hyps. Qed.
+Print Assumptions C01_straightline_nonvacuous.
+
+(* the converter's operator table and eager mode's Tensor methods (both regenerated from the source) name the
+   same ONNX operator for every Python operator except `%` (and except and/or/not, which Python cannot overload) *)
+Theorem C01_operator_tables_agree_partial :
+  forallb (fun p => agrees (fst p) || String.eqb (fst p) "Mod" || mem (fst p) not_overloadable) primop_map = true
+  /\ forallb reflected_ok reflected = true.
+Proof. exact operator_tables_agree_but_mod. Qed.
+Print Assumptions C01_operator_tables_agree_partial.
+
+(* `%`: eager decides fmod by the dtype of the left operand, the converter by the right operand being a float
+   literal -- they differ for a float tensor divided by a tensor (finding F11) *)
+Theorem C01_operator_tables_mod_refuted :
+  compare_op "Mod" = Disagree /\
+  exists left_is_float right_is_literal,
+    eager_fmod left_is_float <> converter_fmod converter_mod_rule right_is_literal
+    /\ binop_attrs "Mod" (EVar "y") = [].
+Proof. exact operator_tables_mod_refuted. Qed.
+Print Assumptions C01_operator_tables_mod_refuted.
+
+(* about the generated analysis (Gen/Analysis.v = analysis.py as it is today): executing statements changes only
+   the variables in assigned_vars; stated for every fuel, every statement list and every outcome *)
+Theorem C01_assigned_vars_sound :
+  forall (V : Type) sem truth trip of_nat while_limit globals cic,
+    (forall c b pe v, cic c = Some b -> eval_expr V sem globals pe c = Some v -> ptruth V truth v = Some b) ->
+    forall fuel ss pe o,
+      exec_block V sem truth trip of_nat while_limit globals fuel ss pe = Some o ->
+      match o with
+      | ONormal _ pe' | OBreak _ pe' => forall x, ~ In x (assigned_block cic ss) -> plookup V pe' x = plookup V pe x
+      | OReturn _ _ => True
+      end.
+Proof. exact OV.Script.AnalysisProofs.assigned_vars_sound. Qed.
+Print Assumptions C01_assigned_vars_sound.
+
+(* liveness and exposed uses of the generated analysis: full statements, not proved (the direct oracle found the
+   unrepaired liveness of `for` unsound: the loop bound is not live) *)
+Definition C01_live_in_sound_full : Prop :=
+  forall (V : Type) sem truth trip of_nat while_limit globals cic afuel,
+    forall fuel s lo li pe1 pe2 o1,
+      live_stmt cic afuel s lo = Some li ->
+      (forall x, In x li -> plookup V pe1 x = plookup V pe2 x) ->
+      exec_block V sem truth trip of_nat while_limit globals fuel [s] pe1 = Some o1 ->
+      exists o2, exec_block V sem truth trip of_nat while_limit globals fuel [s] pe2 = Some o2 /\
+        match o1, o2 with
+        | ONormal _ a, ONormal _ b | OBreak _ a, OBreak _ b => forall x, In x lo -> plookup V a x = plookup V b x
+        | OReturn _ v1, OReturn _ v2 => v1 = v2
+        | _, _ => False
+        end.
